@@ -146,7 +146,7 @@ func c08liftFromDialler(w *c08world, v *c08node) func([]byte) ([]byte, error) {
 	return func(nonce []byte) ([]byte, error) {
 		got := make(chan []byte, 4)
 		hon := c08desc{role: "dial", suite: "", tlsv: "13", op: "a", them: "a", ncerts: 1, der: "ok", signedby: "self", time: "ok",
-			uris: "new:a", cn: "new:a", sig: "a/cur/new:a", nonce: "ok", id: "-", via: "key"}
+			uris: "new:a", cn: "new:a", sig: "a/cur/new:a", nonce: "ok", id: "-", via: "key", live: "none"}
 		cfg := &tls.Config{
 			ClientAuth: tls.RequireAnyClientCert,
 			ClientCAs:  c08caPool(nonce),
@@ -323,6 +323,28 @@ func c08handshake(d c08desc, cs *h.Case) (string, string) {
 		if vnode != nil {
 			lift = c08liftFromDialler(w, vnode)
 		}
+		if d.live != "none" {
+			// the real holder of that key connects to the honest node first and stays connected
+			ln, err := c08startNode(w.suite, w.keys[d.live])
+			if err != nil {
+				cs.Fail("harness", "cannot start the connected peer: "+err.Error())
+				return "harness-error", ""
+			}
+			defer ln.r.Stop()
+			lch := make(chan kyber.Point, 2)
+			c08waiters.Store("live-"+tok, lch)
+			defer c08waiters.Delete("live-" + tok)
+			if _, err := ln.r.Send(hn.id, &C08Msg{Tok: "live-" + tok}); err != nil {
+				cs.Fail("harness", "the connected peer cannot reach the honest node: "+err.Error())
+				return "harness-error", ""
+			}
+			select {
+			case <-lch:
+			case <-time.After(5 * time.Second):
+				cs.Fail("harness", "the connected peer's message was not dispatched")
+				return "harness-error", ""
+			}
+		}
 		done := make(chan struct{})
 		var got kyber.Point
 		var gotIt bool
@@ -419,7 +441,7 @@ func c08gen(c *h.Ctx, yield func(*h.Case)) {
 	// the honest description of a peer operated by `op`, claiming its own key
 	honest := func(role, suite, tlsv, op string) c08desc {
 		d := c08desc{role: role, suite: suite, tlsv: tlsv, op: op, them: "-", ncerts: 1, der: "ok", signedby: "self", time: "ok",
-			uris: "new:" + op, cn: "new:" + op, sig: op + "/cur/new:" + op, nonce: "ok", id: op, via: "key"}
+			uris: "new:" + op, cn: "new:" + op, sig: op + "/cur/new:" + op, nonce: "ok", id: op, via: "key", live: "none"}
 		if role == "dial" {
 			d.them, d.id = op, "-"
 		}
@@ -470,6 +492,14 @@ func c08gen(c *h.Ctx, yield func(*h.Case)) {
 		{"identity-names-other-key", "accept", func(d *c08desc) { d.id = "o" }},
 		{"identity-names-honest-node", "accept", func(d *c08desc) { d.id = "h" }},
 		{"identity-missing", "accept", func(d *c08desc) { d.id = "none" }},
+		// the same while the holder of the declared key has a live connection of its own
+		{"identity-names-connected-peer", "accept", func(d *c08desc) {
+			d.op, d.uris, d.cn, d.sig, d.id, d.live = "a", "new:a", "new:a", "a/cur/new:a", "v", "v"
+		}},
+		{"identity-names-connected-third-peer", "accept", func(d *c08desc) { d.id, d.live = "o", "o" }},
+		{"honest-second-connection", "accept", func(d *c08desc) { d.live = "v" }},
+		{"proof-missing-connected-peer", "accept", func(d *c08desc) { d.sig, d.live = "none", "v" }},
+		{"proof-stale-connected-peer", "accept", func(d *c08desc) { d.op, d.sig, d.live = "a", "v/stale/new:v", "v" }},
 		{"claims-honest-nodes-own-key", "accept", func(d *c08desc) {
 			d.op, d.uris, d.cn, d.sig, d.id = "a", "new:h", "new:h", "a/cur/new:h", "h"
 		}},
@@ -555,6 +585,9 @@ func c08gen(c *h.Ctx, yield func(*h.Case)) {
 			case 9:
 				if role == "accept" {
 					d.id = pick("v", "a", "o", "h", "none")
+					if d.id != "h" && d.id != "none" && r.Intn(2) == 0 {
+						d.live = d.id
+					}
 				}
 			case 10:
 				// consistent claim of another key: name and proof move together
